@@ -135,7 +135,8 @@ Lemma unmarshal_marshal thr has_c p b fl q :
 Proof.
   intros Hf Hc M Hb Hq. unfold clean_flags in Hc.
   destruct (flags_facts _ Hf Hc) as (F1 & F2 & F3 & F4 & F5 & F6 & F7 & F8 & F9 & F10 & _).
-  unfold marshal_body in M. set (B := body_bytes (p_body p)) in *.
+  unfold marshal_body in M. rewrite (ldiff_marshal_clean _ Hc) in M.
+  set (B := body_bytes (p_body p)) in *.
   unfold unmarshal_body, decoded_body. fold B. rewrite Hq.
   destruct ((0 <? thr) && (thr <? lenN B)) eqn:C.
   - (* compressed *)
@@ -165,7 +166,7 @@ Qed.
 (* an empty wire body comes from an empty body and leaves the flag alone *)
 Lemma marshal_empty thr has_c p b fl :
   marshal_body enc zip thr has_c p = (b, fl) -> lenN b = 0 ->
-  fl = p_flag p /\ body_bytes (p_body p) = [].
+  fl = N.ldiff (p_flag p) fMarshal /\ body_bytes (p_body p) = [].
 Proof.
   intros M Hb. unfold marshal_body in M. set (B := body_bytes (p_body p)) in *.
   destruct ((0 <? thr) && (thr <? lenN B)) eqn:C.
@@ -182,7 +183,7 @@ Lemma marshal_flag_lt thr has_c p b fl :
   p_flag p < 256 -> clean_flags p -> marshal_body enc zip thr has_c p = (b, fl) -> fl < 256.
 Proof.
   intros Hf Hc M. destruct (flags_facts _ Hf Hc) as (_&_&_&_&_&_&_&_&_&_& G1 & G2 & G3).
-  unfold marshal_body in M.
+  unfold marshal_body in M. rewrite (ldiff_marshal_clean _ Hc) in M.
   destruct ((0 <? thr) && (thr <? lenN (body_bytes (p_body p))));
     match type of M with (if ?c then _ else _) = _ => destruct c end; injection M as <- <-; assumption.
 Qed.
@@ -256,6 +257,7 @@ Proof.
     rewrite U. unfold decoded_v1, set_body, set_flag. cbn [p_cmd p_seq p_flag p_typ p_node p_refers p_body].
     destruct (body_bytes (p_body p)); [cbn in HB; lia|reflexivity].
   - destruct (marshal_empty thr has_c p b fl M) as [-> E]; [lia|].
+    rewrite (ldiff_marshal_clean _ Hc).
     change (N.land (p_flag p) fMarshal) with (N.land (p_flag p) 3). rewrite Hc. cbn [N.eqb negb].
     unfold decoded_v1. rewrite E. reflexivity.
 Qed.
